@@ -356,7 +356,7 @@ func (st *SymTable) Parse(Ast ast.Ast) {
 			if node.AsName != "" {
 				name = node.AsName
 			}
-			dot := strings.LastIndex(string(name), ".")
+			dot := strings.Index(string(name), ".")
 			store_name := name
 			if dot >= 0 {
 				store_name = name[:dot]
